@@ -92,10 +92,11 @@ Definition vclass_of (name : bytes) : vclass :=
   else if ends_with ((* "_regmatch" *) [95;114;101;103;109;97;116;99;104]) name then VRegex
   else if ends_with ((* "_hash_in" *) [95;104;97;115;104;95;105;110]) name then VHash
   else VNone.
-(* the pattern argument of *_regmatch / *_hash_in is the last STRING argument *)
-Definition last_string (args : list arg) : bytes :=
-  match filter (fun a => fst a =? 1) args with [] => [] | l => arg_str (last l (0, [])) end.
-Definition invalid_args (x : ext) (c : vclass) (args : list arg) : bool :=
+(* the pattern argument of *_regmatch / *_hash_in: documented signatures are (pattern ...) or, for the
+   *_value_* primitives, (key, pattern ...) *)
+Definition pat_pos (name : bytes) : Z := if contains (* "_value_" *) [95;118;97;108;117;101;95] name then 1 else 0.
+Definition invalid_args (x : ext) (c : vclass) (pp : Z) (args : list arg) : bool :=
+  let sp := arg_str (nth_arg args pp) in
   let s0 := arg_str (nth_arg args 0) in
   let s1 := arg_str (nth_arg args 1) in
   let s2 := arg_str (nth_arg args 2) in
@@ -108,9 +109,9 @@ Definition invalid_args (x : ext) (c : vclass) (args : list arg) : bool :=
     | Some (s, v4s), Some (e, v4e) => negb (Bool.eqb v4s v4e) || negb (bytes_le s e)
     | _, _ => true
     end
-  | VRegex => negb (x_re_ok x (last_string args))
+  | VRegex => negb (x_re_ok x sp)
   | VHash => existsb (fun sec => match hash_section sec with Some _ => false | None => true end)
-                     (split_bar (last_string args))
+                     (split_bar sp)
   | VTime =>
     match x_time x s0, x_time x s1 with
     | Some s, Some e => e <? s
@@ -124,7 +125,7 @@ Definition invalid_args (x : ext) (c : vclass) (args : list arg) : bool :=
   end.
 Definition must_reject (x : ext) (name : bytes) (args : list arg) : bool :=
   negb (prototype_check protos name (map fst args) =? 0)        (* unknown primitive, wrong count, wrong types *)
-  || invalid_args x (vclass_of name) args.
+  || invalid_args x (vclass_of name) (pat_pos name) args.
 
 Definition must_reject_comp (x : ext) (ts : list tok) (cs : list (bytes * option (list arg))) : bool :=
   match parse doc_table ts with
